@@ -432,7 +432,19 @@ func (r *Run) DoCorrupt(d *DiskOp) {
 			harnessf("write damaged log: %v", err)
 		}
 		os.Remove(lp + ".tmp")
+		nv := len(r.VL.V)
 		r.judgeCorrupt(c, d.Arg, damaged, lp)
+		hung := false
+		for _, v := range r.VL.V[nv:] {
+			if v.Oracle == "non-termination" {
+				hung = true
+			}
+		}
+		if hung {
+			// one command that never ends is the finding; every further command
+			// on this log would cost another watchdog period
+			break
+		}
 	}
 	os.WriteFile(lp, orig, 0o644)
 	r.Obs = nil
